@@ -293,6 +293,15 @@ func (s *Sim) Gen(r *PRNG) Step {
 		st.A, st.B = r.Intn(nsets), r.Intn(8)
 		st.C = []int{ownThis, ownNone, ownNone, ownStaleUID, ownOtherKind}[r.Intn(5)] | r.Intn(6)<<2 | r.Intn(2)*r.Intn(2)<<5 | (r.Intn(8)/7)<<6 | []int{0, 0, 2, 3}[r.Intn(4)]<<7
 		st.D = r.Intn(3)
+		if (s.Cfg.Profile == "parallel" || s.Cfg.Profile == "ordered") && r.Chance(0.35) {
+			// a pod of the set that has failed (or succeeded) while already terminating
+			st.C = ownThis | []int{4, 5}[r.Intn(2)]<<2 | 1<<5
+			st.B = r.Intn(5)
+		}
+		if s.Cfg.Profile == "flags" && r.Chance(0.4) {
+			// an owned pod whose labels stopped matching
+			st.C = ownThis | 3<<2 | 1<<6
+		}
 	case "mkrev":
 		st.A, st.B, st.C, st.D = r.Intn(nsets), r.Intn(4), r.Intn(16), r.Intn(6)
 	}
